@@ -404,6 +404,28 @@ theorem runOp_keeps_dimension (db : Db) (F : OpFunc) (store : List Obj) (src r :
     simp only [runOp] at h
     split at h <;> cases h
   | assign a => simp only [runOp] at h; cases h
+  | createCopyKw values unit category extra =>
+    cases extra with
+    | dimension => simp only [runOp, createCopyKw, outObj] at h; cases h
+    | value => simp only [runOp, createCopyKw, outObj] at h; cases h
+    | unitDatabase => exact (createCopy_keeps_dimension db src r _ _ _ (outObj_ok h)).2.1
+  | len => simp only [runOp] at h; cases h
+  | iter => simp only [runOp] at h; cases h
+  | getItem index =>
+    simp only [runOp] at h
+    split at h <;> cases h
+  | getSlice s =>
+    simp only [runOp] at h
+    split at h <;> cases h
+  | checkValues values dimension =>
+    simp only [runOp] at h
+    split at h <;> cases h
+  | eq other =>
+    cases other with
+    | store idx =>
+      simp only [runOp] at h
+      split at h <;> cases h
+    | foreign => simp only [runOp] at h; cases h
 
 /-! ### 4. IndexAsScalar -/
 
@@ -546,6 +568,224 @@ theorem curve_inv (image domain : ArrRef) (c : Curve) (h : Curve.new image domai
   induction ss generalizing c with
   | nil => exact h0
   | cons s ss ih => exact ih (c.after s) (curve_after_inv c s h0)
+
+/-! ### 6. the rest of the public surface of a FixedArray -/
+
+/-- the branch `if values is None: values = [0.0] * dimension` of the internal constructor is never
+taken: a call without `values` and without `value` has already failed the `assert values is not None`,
+on every class, with every keyword -/
+theorem internalCreate_needs_values (cls : ClsAttr) (inst : Option Int) (q : Qty) (dimension : Option Int) :
+    internalCreate cls inst q none dimension none = .error .assertion := rfl
+
+/-- `FixedArray.FromScalars(...)` (inherited from `Array`) is no route to a FixedArray: for every list of
+Scalars and every unit / category it raises — the classmethod calls the constructor without `dimension` -/
+theorem fromScalars_never (db : Db) (cls : ClsAttr) (scalars : List Scalar) (unit category : Option Sym) :
+    ∃ e, fromScalars db cls scalars unit category = .error e := by
+  cases h : fromScalars db cls scalars unit category with
+  | error e => exact ⟨e, rfl⟩
+  | ok o => exact absurd h fromScalars_never_ok
+
+/-- extra keywords of `CreateCopy`: `dimension=` and `value=` collide with the keywords the method adds
+itself (`TypeError`, whatever else is passed); `unit_database=` changes nothing -/
+theorem createCopyKw_spec (db : Db) (o : Obj) (values : Option ValArg) (unit category : Option Sym) :
+    createCopyKw db o values unit category .dimension = .error .type ∧
+    createCopyKw db o values unit category .value = .error .type ∧
+    createCopyKw db o values unit category .unitDatabase = createCopy db o values unit category :=
+  ⟨rfl, rfl, rfl⟩
+
+/-- **`len(array) == array.dimension`, and iterating yields exactly that many numbers**, for every array
+ever obtained by any chain of operations -/
+theorem len_is_dimension (db : Db) (F : OpFunc) (cmds : List Cmd) (store : List Obj) :
+    ∀ o ∈ run db F [] cmds,
+      runOp db F store o .len = .ok (.int o.st.dim) ∧
+      ∃ xs, runOp db F store o .iter = .ok (.vals ⟨.list, xs⟩) ∧ (xs.length : Int) = o.st.dim ∧
+        xs = o.st.vals.xs := by
+  intro o ho
+  have hi := reachable_inv db F cmds o ho
+  refine ⟨?_, o.st.vals.xs, rfl, hi.1, rfl⟩
+  simp only [runOp]
+  rw [hi.1]
+
+/-- **`array[i]`** on an array that satisfies the invariant: the element at the normalised index for
+`-dimension ≤ i < dimension`, `IndexError` for every other index -/
+theorem getItem_spec (db : Db) (F : OpFunc) (store : List Obj) (o : Obj) (i : Int) (hi : Inv o.st) :
+    (∀ j, normIndex o.st.dim.toNat i = some j →
+        ∃ x, o.st.vals.xs[j]? = some x ∧ runOp db F store o (.getItem i) = .ok (.num x)) ∧
+    (normIndex o.st.dim.toNat i = none → runOp db F store o (.getItem i) = .error .index) := by
+  have hl : o.st.dim.toNat = o.st.vals.xs.length := by
+    have := hi.1
+    omega
+  rw [hl]
+  constructor
+  · intro j hj
+    obtain ⟨x, hx, hp⟩ := pyIndex_some hj
+    exact ⟨x, hx, by simp only [runOp, hp]⟩
+  · intro hn
+    simp only [runOp, pyIndex_none hn]
+
+/-- **`array[start:stop:step]`** is a plain container of the array's kind, NOT a FixedArray (so no length
+is owed to the invariant): `ValueError` for a zero step, otherwise the elements at the positions of
+`slice.indices(len)`, every one of them inside the array -/
+theorem getSlice_spec (db : Db) (F : OpFunc) (store : List Obj) (o : Obj) (s : PySlice) :
+    (s.step = some 0 → runOp db F store o (.getSlice s) = .error .value) ∧
+    (s.step ≠ some 0 → ∃ idx ys, sliceIndices o.st.vals.xs.length s = .ok idx ∧
+      runOp db F store o (.getSlice s) = .ok (.vals ⟨o.st.vals.kind, ys⟩) ∧ ys.length = idx.length ∧
+      ∀ (k : Nat) i, idx[k]? = some i →
+        0 ≤ i ∧ i < (o.st.vals.xs.length : Int) ∧ ys[k]? = o.st.vals.xs[i.toNat]?) := by
+  obtain ⟨h0, h1⟩ := pySlice_spec o.st.vals.xs s
+  constructor
+  · intro h
+    simp only [runOp, h0 h]
+  · intro h
+    obtain ⟨idx, ys, hidx, hys, hl, he⟩ := h1 h
+    exact ⟨idx, ys, hidx, by simp only [runOp, hys], hl, he⟩
+
+/-- the public **`CheckValues(values)`** of an array accepts exactly the containers of `dimension`
+elements (`ValueError` for any other length, `TypeError` for an object without a length); with the
+`dimension` keyword it is that number the length is compared with -/
+theorem checkValues_spec (o : Obj) (values : ValArg) (dimension : Option Int) :
+    checkValuesPublic o values dimension =
+      (match values with
+       | .unsized => .error .type
+       | .sized v => if (v.xs.length : Int) = dimension.getD o.st.dim then .ok () else .error .value) := by
+  unfold checkValuesPublic checkValues
+  cases values with
+  | unsized => rfl
+  | sized v =>
+    by_cases h : (v.xs.length : Int) = dimension.getD o.st.dim <;> simp [h]
+
+/-- `a == b` between FixedArrays holds only for equal dimensions and equally many values; an array equals
+itself, and nothing that is not a FixedArray -/
+theorem fixedEq_spec (a b : FixedArr) :
+    (fixedEq a b = true → a.dim = b.dim ∧ a.vals.xs.length = b.vals.xs.length ∧ a.q = b.q) ∧
+    fixedEq a a = true := by
+  constructor
+  · intro h
+    simp only [fixedEq, Bool.and_eq_true, beq_iff_eq] at h
+    exact ⟨h.2, by rw [h.1.1], h.1.2⟩
+  · simp [fixedEq]
+
+/-- a pickle round trip and a `CreateCopy()` without arguments compare equal to their source -/
+theorem copies_compare_equal (db : Db) (o r : Obj) :
+    (reduce db o = .ok r → fixedEq o.st r.st = true) ∧
+    (createCopy db o none none none = .ok r → fixedEq o.st r.st = true) := by
+  constructor
+  · intro h
+    rw [(reduce_spec db o r h).1]
+    exact (fixedEq_spec o.st o.st).2
+  · intro h
+    obtain ⟨q, v, hq, hc, _⟩ := createCopy_ok h
+    simp only [copyQuantity] at hq
+    cases hq
+    obtain ⟨_, hi⟩ := createWithQuantity_ok hc
+    obtain ⟨vs, hm, hr, hvs, hqq, _⟩ := internalCreate_ok hi
+    have hd := (createCopy_keeps_dimension db o r none none none h).2.1
+    unfold createCopy at h
+    simp only [getValues] at h
+    obtain ⟨_, hi'⟩ := createWithQuantity_ok h
+    obtain ⟨vs', hm', _, hvs', _, _⟩ := internalCreate_ok hi'
+    simp only [mergeValue] at hm'
+    cases hm'
+    have hv : o.st.vals = r.st.vals := by injection hvs'
+    simp [fixedEq, hv, hqq, hd]
+
+/-! ### 7. reading a Curve -/
+
+/-- **any sequence of calls** — `SetImage` / `SetDomain` (accepted or rejected), `curve[i]`, `curve[a:b:c]`,
+`GetLength()`, `repr(curve)` — leaves image and domain the same length; only a setter can change the curve -/
+theorem curve_ops_inv (image domain : ArrRef) (c : Curve) (h : Curve.new image domain = .ok c)
+    (os : List CurveOp) : CInv (c.runOps os) := by
+  have h0 : CInv c := curve_inv image domain c h []
+  exact curve_runOps_inv os c h0
+
+/-- a call that is not a setter returns the very same curve -/
+theorem curve_reads_change_nothing (c : Curve) (o : CurveOp) (h : ∀ s, o ≠ .set s) : c.next o = c := by
+  cases o with
+  | set s => exact absurd rfl (h s)
+  | getItem i => rfl
+  | getSlice s => rfl
+  | length => rfl
+  | repr => rfl
+
+/-- **`curve[i]`** on a curve whose image and domain have the same length `n` (every curve, by
+`curve_ops_inv`): for `-n ≤ i < n` the pair `(domain[j], image[j])` at the normalised index `j` — the
+domain element FIRST, as the code has it —, `IndexError` for every other index -/
+theorem curve_getitem_spec (h : Content) (c : Curve) (i : Int) (hf : Faithful h) (hc : CInv c) :
+    (∀ j, normIndex c.length i = some j →
+        ∃ d im, (h c.domain).elems[j]? = some d ∧ (h c.image).elems[j]? = some im ∧
+          c.getItem h i = .ok (d, im)) ∧
+    (normIndex c.length i = none → c.getItem h i = .error .index) := by
+  have hli : (h c.image).elems.length = c.length := hf c.image
+  have hld : (h c.domain).elems.length = c.length := by
+    rw [hf c.domain]
+    exact hc.symm
+  constructor
+  · intro j hj
+    obtain ⟨d, hd, hpd⟩ := pyIndex_some (xs := (h c.domain).elems) (i := i) (j := j) (by rw [hld]; exact hj)
+    obtain ⟨im, him, hpi⟩ := pyIndex_some (xs := (h c.image).elems) (i := i) (j := j) (by rw [hli]; exact hj)
+    exact ⟨d, im, hd, him, by simp only [Curve.getItem, hpd, hpi]⟩
+  · intro hn
+    have : pyIndex (h c.domain).elems i = .error .index := pyIndex_none (by rw [hld]; exact hn)
+    simp only [Curve.getItem, this]
+
+/-- **`curve[start:stop:step]`** builds no Curve: it is the pair of the two containers sliced on their own
+(domain first, each keeping its container kind).  On a curve whose image and domain have the same length the
+two slices visit the same positions: equally long, and the `k`-th elements are `domain[p]` and `image[p]` for
+one and the same position `p`.  A zero step is `ValueError`. -/
+theorem curve_slice_spec (h : Content) (c : Curve) (s : PySlice) (hf : Faithful h) (hc : CInv c) :
+    (s.step = some 0 → c.getSlice h s = .error .value) ∧
+    (s.step ≠ some 0 → ∃ idx d im, sliceIndices c.length s = .ok idx ∧
+      c.getSlice h s = .ok (((h c.domain).kind, d), ((h c.image).kind, im)) ∧
+      d.length = idx.length ∧ im.length = idx.length ∧
+      ∀ (k : Nat) p, idx[k]? = some p → 0 ≤ p ∧ p < (c.length : Int) ∧
+        d[k]? = (h c.domain).elems[p.toNat]? ∧ im[k]? = (h c.image).elems[p.toNat]?) := by
+  have hli : (h c.image).elems.length = c.length := hf c.image
+  have hld : (h c.domain).elems.length = c.length := by
+    rw [hf c.domain]
+    exact hc.symm
+  obtain ⟨d0, d1⟩ := pySlice_spec (h c.domain).elems s
+  obtain ⟨i0, i1⟩ := pySlice_spec (h c.image).elems s
+  constructor
+  · intro hs
+    simp only [Curve.getSlice, d0 hs]
+  · intro hs
+    obtain ⟨idx, d, hidx, hd, hdl, hde⟩ := d1 hs
+    obtain ⟨idx', im, hidx', him, hil, hie⟩ := i1 hs
+    rw [hld] at hidx
+    rw [hli] at hidx'
+    rw [hidx] at hidx'
+    cases hidx'
+    refine ⟨idx, d, im, hidx, by simp only [Curve.getSlice, hd, him], hdl, hil, ?_⟩
+    intro k p hk
+    obtain ⟨h0, h1, h2⟩ := hde k p hk
+    obtain ⟨_, _, h3⟩ := hie k p hk
+    rw [hld] at h1
+    exact ⟨h0, h1, h2, h3⟩
+
+/-- **`repr(curve)`** shows the units of image and domain (in this order) and the pairs
+`(image[k], domain[k])` for `k < 21`, followed by the ellipsis exactly when there are more than 21 points -/
+theorem curve_repr_spec (h : Content) (c : Curve) (hf : Faithful h) (hc : CInv c) :
+    (c.repr h).imageUnit = (h c.image).unit ∧ (c.repr h).domainUnit = (h c.domain).unit ∧
+    (c.repr h).items = ((h c.image).elems.zip (h c.domain).elems).take 21 ∧
+    (c.repr h).items.length = min c.length 21 ∧
+    ((c.repr h).ellipsis = true ↔ 21 < c.length) := by
+  have hli : (h c.image).elems.length = c.length := hf c.image
+  have hld : (h c.domain).elems.length = c.length := by
+    rw [hf c.domain]
+    exact hc.symm
+  have hz : ((h c.image).elems.zip (h c.domain).elems).length = c.length := by
+    simp [List.length_zip, hli, hld]
+  have hr := reprLoop_spec ((h c.image).elems.zip (h c.domain).elems) 0 (by omega)
+  refine ⟨rfl, rfl, ?_, ?_, ?_⟩
+  · simp only [Curve.repr, hr]
+  · simp only [Curve.repr, hr, List.length_take, hz]
+    omega
+  · simp only [Curve.repr, hr, hz]
+    simp
+
+/-- `GetLength()` is the common length of image and domain -/
+theorem curve_length_spec (c : Curve) (hc : CInv c) : c.length = c.image.len ∧ c.length = c.domain.len :=
+  ⟨rfl, hc⟩
 
 /-! ### non-vacuity: concrete instances (the POSC database; `m` = 109, `cm`, `length`, `depth`) -/
 
